@@ -714,6 +714,8 @@ def _default_json(f):
     v = f.default
     if isinstance(v, TagRef):
         return ['tag', v.union_data_type.namespace.name, v.union_data_type.name, v.tag_name]
+    if isinstance(v, str):
+        return ['lit', 'str', v]
     return ['lit', type(v).__name__]
 
 
@@ -1199,6 +1201,20 @@ def read_tree(root):
             except UnicodeDecodeError:
                 out[rel] = open(p, encoding='latin-1').read()
     return out
+
+
+def lexical_cause(what, text_line, api):
+    """attribute a lexical problem to a known construct (so that a DIFFERENT malformed output keeps cause 'unknown')"""
+    if api is not None:          # whatever the lexer trips over first on a line that prints such a default verbatim
+        for ns in api.namespaces.values():
+            for dt in ns.data_types:
+                for f in dt.fields:
+                    v = getattr(f, 'default', None) if getattr(f, 'has_default', False) else None
+                    if isinstance(v, str) and re.search(r'["\\\n]', v) and v in text_line:
+                        return 'string-default-unescaped'
+    if what == 'mismatched-bracket' and re.search(r'\(arg( \})+\)', text_line):
+        return 'objc-union-arg-nested-list'
+    return 'unknown'
 
 
 def is_resource(key, rel):
@@ -1733,13 +1749,14 @@ def eval_case(case, keep_files=False):
             if keep_files:
                 res['runs'][key]['texts'] = files
             for p in lexp:
+                lines = files[p['file']].splitlines()
+                line_text = lines[p['line'] - 1] if p['line'] - 1 < len(lines) else ''
                 res['problems'].append(('lexically-malformed',
                                         {'oracle': 'lexical', 'backend': key, 'kind': p['what'],
-                                         'resource': is_resource(key, p['file'])},
+                                         'resource': is_resource(key, p['file']),
+                                         'cause': lexical_cause(p['what'], line_text, api)},
                                         {'backend': key, 'file': p['file'], 'line': p['line'], 'col': p['col'],
-                                         'what': p['what'], 'detail': p['detail'],
-                                         'text': files[p['file']].splitlines()[p['line'] - 1][:200]
-                                         if p['line'] - 1 < len(files[p['file']].splitlines()) else ''}))
+                                         'what': p['what'], 'detail': p['detail'], 'text': line_text[:200]}))
         # the IR as the backends saw it (aliases removed by the first Compiler run; idempotent)
         remove_aliases_from_api(api)
         aj = api_json(api)
